@@ -3,13 +3,13 @@ NEXT Next
 CONSTANTS
   A = 4
   L = 2
-  MaxLines = 1
-  Ks = {0, 1, 2}
-  Fmts = {"bc", "idx_bc"}
-  NFiles = {2}
-  Lazy = {"none"}
+  MaxLines = 2
+  Ks = {1}
+  Fmts = {"bc"}
+  NFiles = {1}
+  Lazy = {"none", "other"}
   Touches = {"lookup", "getitem"}
-  Variant = "design"
+  Variant = "eager_expand_gated"
 INVARIANT TypeOK
 INVARIANT Inv_C03_Nearest
 INVARIANT Inv_C03_Exact
